@@ -291,6 +291,137 @@ func sameFlat(t geom.T, g *model.G) error {
 	return nil
 }
 
+func sameCoord(what string, got geom.Coord, want []model.F) error {
+	if len(got) != len(want) {
+		return fmt.Errorf("%s has %d ordinates, want %d", what, len(got), len(want))
+	}
+	for i := range want {
+		if math.Float64bits(got[i]) != uint64(want[i]) {
+			return fmt.Errorf("%s[%d] = %v (%#x), set %v (%#x)", what, i, got[i], math.Float64bits(got[i]), want[i].V(), uint64(want[i]))
+		}
+	}
+	return nil
+}
+
+// accessors: the single-coordinate views of the flat representation (NumCoords,
+// Coord(i), Point.X/Y/Z/M, SubLineString) read back what was set.
+func accessors(t geom.T, g *model.G) error {
+	l := g.Lay()
+	switch v := t.(type) {
+	case *geom.Point:
+		if g.C0 == nil {
+			return nil // NumCoords() of a Point is documented as the constant 1
+		}
+		if v.NumCoords() != 1 {
+			return fmt.Errorf("Point: NumCoords() = %d", v.NumCoords())
+		}
+		want := func(idx int) uint64 {
+			if idx < 0 {
+				return 0 // documented: 0 when the layout has no such dimension
+			}
+			return uint64(g.C0[idx])
+		}
+		for _, a := range []struct {
+			name string
+			got  float64
+			idx  int
+		}{{"X", v.X(), 0}, {"Y", v.Y(), 1}, {"Z", v.Z(), l.ZIndex()}, {"M", v.M(), l.MIndex()}} {
+			if math.Float64bits(a.got) != want(a.idx) {
+				return fmt.Errorf("Point.%s() = %v, ordinates set %v (layout %v)", a.name, a.got, model.Floats(g.C0), l)
+			}
+		}
+		c := geom.Coord(v.FlatCoords())
+		if math.Float64bits(c.X()) != uint64(g.C0[0]) || math.Float64bits(c.Y()) != uint64(g.C0[1]) {
+			return fmt.Errorf("Coord.X/Y = %v, %v, set %v", c.X(), c.Y(), model.Floats(g.C0))
+		}
+	case *geom.LineString:
+		n := len(g.C1)
+		if v.NumCoords() != n {
+			return fmt.Errorf("LineString.NumCoords() = %d, %d coordinates set", v.NumCoords(), n)
+		}
+		for _, i := range []int{0, n / 2, n - 1} {
+			if i >= 0 && i < n {
+				if err := sameCoord(fmt.Sprintf("LineString.Coord(%d)", i), v.Coord(i), g.C1[i]); err != nil {
+					return err
+				}
+			}
+		}
+		// every sub-range for short lines, a few for long ones
+		step := 1
+		if n > 8 {
+			step = n/4 + 1
+		}
+		for a := 0; a <= n; a += step {
+			for b := a; b <= n; b += step {
+				sub := v.SubLineString(a, b)
+				if err := model.WellFormed(sub); err != nil {
+					return fmt.Errorf("SubLineString(%d,%d) not well formed: %v", a, b, err)
+				}
+				if sub.Layout() != l || sub.NumCoords() != b-a {
+					return fmt.Errorf("SubLineString(%d,%d): layout %v with %d coordinates", a, b, sub.Layout(), sub.NumCoords())
+				}
+				for i := a; i < b; i++ {
+					if err := sameCoord(fmt.Sprintf("SubLineString(%d,%d).Coord(%d)", a, b, i-a), sub.Coord(i-a), g.C1[i]); err != nil {
+						return err
+					}
+				}
+			}
+		}
+	case *geom.LinearRing:
+		if v.NumCoords() != len(g.C1) {
+			return fmt.Errorf("LinearRing.NumCoords() = %d, %d coordinates set", v.NumCoords(), len(g.C1))
+		}
+		for i := range g.C1 {
+			if err := sameCoord(fmt.Sprintf("LinearRing.Coord(%d)", i), v.Coord(i), g.C1[i]); err != nil {
+				return err
+			}
+		}
+	case *geom.MultiPoint:
+		if v.NumCoords() != len(g.C1) || v.NumPoints() != len(g.C1) {
+			return fmt.Errorf("MultiPoint.NumCoords()/NumPoints() = %d/%d, %d members set", v.NumCoords(), v.NumPoints(), len(g.C1))
+		}
+		for i, c := range g.C1 {
+			got := v.Coord(i)
+			if c == nil {
+				if got != nil {
+					return fmt.Errorf("MultiPoint.Coord(%d) = %v for an empty member", i, got)
+				}
+				continue
+			}
+			if err := sameCoord(fmt.Sprintf("MultiPoint.Coord(%d)", i), got, c); err != nil {
+				return err
+			}
+		}
+	case *geom.Polygon:
+		n := 0
+		for _, r := range g.C2 {
+			n += len(r)
+		}
+		if v.NumCoords() != n {
+			return fmt.Errorf("Polygon.NumCoords() = %d, %d coordinates set", v.NumCoords(), n)
+		}
+	case *geom.MultiLineString:
+		n := 0
+		for _, r := range g.C2 {
+			n += len(r)
+		}
+		if v.NumCoords() != n {
+			return fmt.Errorf("MultiLineString.NumCoords() = %d, %d coordinates set", v.NumCoords(), n)
+		}
+	case *geom.MultiPolygon:
+		n := 0
+		for _, p := range g.C3 {
+			for _, r := range p {
+				n += len(r)
+			}
+		}
+		if v.NumCoords() != n {
+			return fmt.Errorf("MultiPolygon.NumCoords() = %d, %d coordinates set", v.NumCoords(), n)
+		}
+	}
+	return nil
+}
+
 // lossless checks (1) and (2) on a geometry obtained for model g.
 func lossless(what string, t geom.T, g *model.G, flatToo bool) error {
 	if err := model.WellFormed(t); err != nil {
@@ -306,6 +437,9 @@ func lossless(what string, t geom.T, g *model.G, flatToo bool) error {
 		if err := sameFlat(t, g); err != nil {
 			return fmt.Errorf("%s: %v", what, err)
 		}
+	}
+	if err := accessors(t, g); err != nil {
+		return fmt.Errorf("%s: %v", what, err)
 	}
 	if g.Kind == model.Point && g.C0 == nil {
 		return nil
